@@ -50,6 +50,10 @@ struct State {
     probes: Vec<(&'static str, u64)>,
     record_states: bool,
     states: Vec<StateSnapshot>,
+    /// hook events (probes and choice points) seen since `begin`
+    events: u64,
+    /// fault injection: unwind out of the library at this event
+    abort_at: Option<u64>,
 }
 
 thread_local! {
@@ -65,6 +69,38 @@ pub fn begin(policy: Option<Policy>, record_states: bool) {
         s.policy = policy;
         s.record_states = record_states;
     });
+}
+
+/// Fault injection: at the `n`-th hook event (probe or choice point) after
+/// `begin` on this thread, panic - the caller sees the library call unwind at
+/// an arbitrary point of a rewriting sequence, as it would after a failed
+/// assertion. One shot; without this call nothing is ever injected.
+pub fn arm_abort(n: u64) {
+    STATE.with(|s| {
+        let mut s = s.borrow_mut();
+        if s.active {
+            s.abort_at = Some(n);
+        }
+    });
+}
+
+fn tick(site: &'static str) {
+    let fire = STATE.with(|s| {
+        let mut s = s.borrow_mut();
+        if !s.active {
+            return None;
+        }
+        s.events += 1;
+        if s.abort_at == Some(s.events) {
+            s.abort_at = None;
+            Some(s.events)
+        } else {
+            None
+        }
+    });
+    if let Some(n) = fire {
+        panic!("verif_hooks: injected abort at event {} ({})", n, site);
+    }
 }
 
 pub struct Observed {
@@ -90,6 +126,7 @@ pub fn choose(site: &'static str, options: &[usize], natural: Option<usize>) -> 
     if options.is_empty() {
         return Some(natural);
     }
+    tick(site);
     STATE.with(|s| {
         let mut s = s.borrow_mut();
         if !s.active {
@@ -125,6 +162,7 @@ pub fn choose(site: &'static str, options: &[usize], natural: Option<usize>) -> 
 
 /// Count that a named branch was reached.
 pub fn probe(name: &'static str) {
+    tick(name);
     STATE.with(|s| {
         let mut s = s.borrow_mut();
         if !s.active {
